@@ -581,6 +581,9 @@ def n_chiplets_bitwise(kind):
             return En("Err", [En("NotU32Value", [b, F(Lin({}, 0))], ty="ExecutionError")], ty="Result")
         x, y = z3.Int2BV(av, 32), z3.Int2BV(bvv, 32)
         r = z3.BV2Int(x & y if kind == "and" else x ^ y)
+        rs = z3.simplify(r)
+        if z3.is_int_value(rs):
+            return En("Ok", [F(Lin({}, rs.as_long()))], ty="Result")
         name = interp.fresh("bw")
         res = ctx.var(name, 2**32 - 1)
         ctx.side.append(ctx.atoms[name] == r)
